@@ -90,11 +90,16 @@ Section Regrid.
   Definition per_lower (n : nat) (period : F) (x : nat -> F) (i : nat) : F :=
     (align_phase (roll_p1 n x i) (x i) period + x i) / two.
 
-  (** _periodic_overlap(x0, x1, y0, y1, period) *)
+  (** _periodic_overlap(x0, x1, y0, y1, period): the interval [y0,y1] is moved
+      as a whole next to x0 (shift = align(y0, x0) - y0), then the overlaps with
+      its images at offsets -period, 0, +period are accumulated (overlap = 0;
+      overlap += ...). *)
   Definition per_overlap (period x0 x1 y0 y1 : F) : F :=
-    let y0' := align_phase y0 x0 period in
-    let y1' := align_phase y1 x0 period in
-    fmax (fmin x1 y1' - fmax x0 y0') 0.
+    let shift := align_phase y0 x0 period - y0 in
+    let y0' := y0 + shift in
+    let y1' := y1 + shift in
+    let term := fun offset => fmax (fmin x1 (y1' + offset) - fmax x0 (y0' + offset)) 0 in
+    0 + term (- period) + term 0 + term period.
 
   (** [points % period] for a float array: the quotient floor(x/period) is
       supplied as a witness [k] and validated ([0 <= r < period]). *)
